@@ -260,6 +260,68 @@ def run_extend(case):
     return result(ex, ['extend:%s' % model], fails[:3])
 
 
+# ---- write() on an original and its copy (no books argument): each returned workbook set shows its own solution and stays that way
+WOVER = {'w0': {}, 'w1': {XP + 'A1': 41}, 'w2': {XP + 'A1': 77, XP + 'A2': 5}}
+
+
+def write_cases(tier):
+    for model in ('a', 'b'):
+        for kind in ('deepcopy', 'dill'):
+            for n in (2, 3):
+                for seq in itertools.product([(w, o) for w in 'oc' for o in WOVER], repeat=n):
+                    if len({w for w, _ in seq}) == 2:
+                        yield ['wpair', model, kind, [list(x) for x in seq]]
+
+
+def _book_content(books):
+    import formulas
+    out = {}
+    for bk, d in books.items():
+        wb = d[formulas.BOOK]
+        for ws in wb.worksheets:
+            for row in ws.iter_rows():
+                for c in row:
+                    if c.value is not None:
+                        out['%s|%s|%s' % (bk.upper(), ws.title.upper(), c.coordinate)] = repr(c.value)
+    return out
+
+
+def run_wpair(case):
+    _, model, kind, seq = case
+    from xl.evalcell import exc_name
+    fails, ex = [], 0
+    desc = dict(model=model, copy=kind, seq=json.dumps(seq))
+    try:
+        m = fresh(model)
+        objs = {'o': m, 'c': do_copy(m, kind)}
+        held = []
+        for w, o in seq:
+            sol = objs[w].calculate(dict(WOVER[o]))
+            books = objs[w].write(solution=sol)
+            ex += 2
+            held.append((w, o, books, _book_content(books)))
+        for i, (w, o, books, at_return) in enumerate(held):
+            if ('ref', model, o) not in _XREF:
+                fm = fresh(model)
+                _XREF[('ref', model, o)] = _book_content(fm.write(solution=fm.calculate(dict(WOVER[o]))))
+            exp = _XREF[('ref', model, o)]
+            if at_return != exp:
+                d = c07.first_diff(at_return, exp)
+                fails.append(Fail('copy-not-equivalent', got=d[0], exp=d[1], who=w, op='write:' + o, step=i, **desc))
+                break
+            now = _book_content(books)
+            if now != at_return:
+                d = c07.first_diff(now, at_return)
+                fails.append(Fail('interference', got=d[0], exp=d[1], who=w, op='write:' + o, step=i, **desc))
+                break
+            if any(books is other[2] for other in held[:i]):
+                fails.append(Fail('interference', got='write() returned the object it returned before', exp='an object of its own', who=w, op='write:' + o, step=i, **desc))
+                break
+    except Exception as e:
+        fails.append(Fail('escape', got='%s:%s' % (exc_name(e), str(e)[:100]), exp='a result', who='?', op='write', step=0, **desc))
+    return result(ex, ['wpair:%s:%s' % (model, kind)], fails[:3])
+
+
 def run_func(case):
     _, which, kind = case
     import numpy as np
@@ -310,12 +372,15 @@ def run_func(case):
 def run_case(case):
     if case[0] == 'extend':
         return run_extend(case)
+    if case[0] == 'wpair':
+        return run_wpair(case)
     return run_pair(case) if case[0] == 'pair' else run_func(case)
 
 
 def run(ctx):
     ctx.explore(run_case, cases(ctx.tier), chunksize=2, label='pairs')
     ctx.explore(run_case, extend_cases(ctx.tier), chunksize=8, label='objects extended after the copy')
+    ctx.explore(run_case, write_cases(ctx.tier), chunksize=8, label='write() on original and copy')
     # report (not judge) mutable objects shared between an original and its deep copy
     from mc.fingerprint import mutable_ids
     shared = {}
